@@ -53,6 +53,11 @@ def hist(L, a, b, alpha=3, **kw):
 def obligations(tier):
     q = tier == "quick"
     L = []
+    # typed Marshal/Unmarshal through the reflect environment (package json harnesses)
+    for nd, rd in ((4, False), (4, True)) if q else ((3, False), (4, False), (4, True), (6, True)):
+        L.append(ob("typed/err-alias/digits=%d/reader=%d" % (nd, rd), ".", "VerifC18ErrAlias", [nd, rd], covers=["error"], max_seconds=600))
+    for depth in ((1005,) if q else (1001, 1005, 1100)):
+        L.append(ob("typed/deep-history/depth=%d" % depth, ".", "VerifC18DeepHistory", [depth], covers=["second"], max_seconds=900, step_limit=400000000))
     only = os.environ.get("C18_ONLY", "")
     # ---- hist: A = any call kind, any of the option sets {1,4,7,0}, on templates that end on every kind of exit
     LONG = '@names66@"?":0}'      # 67 members: the namespace switches to its map representation
